@@ -49,6 +49,8 @@ func main() {
 		cmdList()
 	case "lock":
 		os.Exit(cmdLock())
+	case "seeded":
+		os.Exit(cmdSeeded(os.Args[2:]))
 	case "selftest":
 		os.Exit(cmdSelftest(os.Args[2:]))
 	case "replay":
